@@ -45,7 +45,7 @@ def sim_replay(v, path):
         v.violation("replay.txt", open(path).read())
 
 
-def snapshot_check(walk, routes, fp=False):
+def snapshot_check(walk, routes, fp=False, transparent=False):
     def run(v, tier, seed):
         scen, impl, model, bad = snap_suite.run_snapshot(v, tier, seed, walk=walk)
         snap_suite.report(v, bad, "snapshot", monitor=snap_suite.snapshot_timer_monitor)
@@ -69,8 +69,18 @@ def snapshot_check(walk, routes, fp=False):
             n += snap_suite.run_two_routes(v, tier, seed)
         if fp:
             n += snap_suite.fp_probe(v, tier, seed)
+        if transparent:
+            n += snap_suite.judge_mc_transparent(v, scen, impl, "snapshot")
         return n
     return run
+
+
+def auto_replay(v, path):
+    """replay file of either engine"""
+    lines = [l.strip() for l in open(path) if l.strip() and not l.startswith("#")]
+    if any(l.startswith(("run ", "runfrom ", "cb ")) for l in lines) and not any(l.startswith(("seed", "draws", "mc run")) for l in lines):
+        return mc_checks.replay(v, path)
+    return sim_replay(v, path)
 
 
 def pred_check(v, tier, seed):
@@ -141,10 +151,12 @@ PROPS = {
                        "the theorems cover the hash-order independence of dump_events/snapshot and of crash_node"},
     "C04": {"ready": True, "partial": PARTIAL_D1 + "; the end-to-end theorem sim_run_covered_partial (simulated run after the snapshot is covered by an Ok exploration) assumes fault rates zero, no crash/recover after the snapshot, exact time arithmetic (finding D16 is where f64 breaks it) and goal/prune only at states without pending events; with positive rates or crashes the inclusion is checked on the implementation (simulated walks) only",
             "replay": sim_replay, "suites": [snapshot_check(walk=10, routes=False, fp=True)]},
-    "C05": {"ready": True, "replay": sim_replay,
+    "C05": {"ready": True, "replay": auto_replay,
             "suites": [sim("sim_network", "C05", dict(p_fault=0.6, p_link=0.6, p_crash=0.1, nodes=(2, 3), procs=(2, 4)),
                            nontrivial=lambda st: st["received"] and (st["faults_on"] or st["links"]),
-                           extra=lambda rng, tier: [(f"lm{i}", sim_suite.gen_link_matrix(rng)) for i in range(300 if tier == "quick" else 6000)])]},
+                           extra=lambda rng, tier: [(f"lm{i}", sim_suite.gen_link_matrix(rng)) for i in range(300 if tier == "quick" else 6000)]),
+                       mc("mc_links", dict(p_link=0.7, p_fault=0.2, nodes=(2, 3), procs=(2, 4), p_send=0.6, p_timer=0.1), refenum=True, n_quick=100, n_thorough=1500,
+                          extra_gen=mc_checks.gen_mc_link_matrix, nontrivial=lambda st: st["multi_states"])]},
     "C06": {"ready": True, "replay": sim_replay,
             "suites": [sim("sim_time", "C06", dict(p_random_delay=0.7, p_skew=0.6, p_clock=0.4, p_crash=0.1),
                            nontrivial=lambda st: st["received"] and st["timers_fired"],
@@ -176,7 +188,7 @@ PROPS = {
                                                      p_crash=0.05, p_link=0.05, ops=(8, 20)),
                            nontrivial=lambda st: st["timers_fired"])]},
     "C09": {"ready": True, "replay": mc_checks.replay,
-            "suites": [mc("mc_rerun", dict(two_runs=1.0, staged=0.3, p_link=0.4, p_fault=0.3, p_crash=0.2, nodes=(2, 3), p_send=0.5)), snapshot_check(walk=0, routes=False)]},
+            "suites": [mc("mc_rerun", dict(two_runs=1.0, staged=0.3, p_link=0.4, p_fault=0.3, p_crash=0.2, nodes=(2, 3), p_send=0.5)), snapshot_check(walk=0, routes=False, transparent=True)]},
     "C10": {"ready": True, "replay": mc_checks.replay, "partial": PARTIAL_D1,
             "suites": [mc("mc_bfs_dfs", dict(depth=(2, 4)), cross=[("dfs", "full"), ("bfs", "full"), ("dfs", "disabled"), ("bfs", "disabled")],
                           n_quick=200)]},
@@ -186,7 +198,7 @@ PROPS = {
                           n_quick=200, extra_gen=mc_checks.gen_crash_merge), mc_checks.rand_cache_probe]},
     "C12": {"ready": True, "replay": mc_checks.replay,
             "suites": [mc("mc_fates", dict(p_fault=0.7, p_link=0.5, p_send=0.6, p_timer=0.1, nodes=(2, 3), procs=(2, 3), depth=(2, 4)),
-                          refenum=True, nontrivial=lambda st: st["faults"] and st["multi_states"])]},
+                          refenum=True, nontrivial=lambda st: st["faults"] and st["multi_states"], extra_gen=mc_checks.gen_mc_link_matrix)]},
     "C13": {"ready": True, "partial": PARTIAL_D1, "replay": mc_checks.replay,
             "suites": [lambda v, tier, seed: store_suite.run(v, tier, seed, only_timers=True),
                        mc("mc_timer_order", dict(p_timer=0.7, p_send=0.15, p_once=0.4, same_timer_name=0.1, p_mode=0.4, depth=(3, 5),
